@@ -31,12 +31,23 @@ PY_OBJECTS = {'True': True, 'False': False, '1.5': 1.5, '0.0': 0.0, '(1, 2)': (1
 assert all(str(v) == k for k, v in PY_OBJECTS.items())
 
 
+class StrSub(str):
+    """a str subclass whose str() is not its own text (like a str-valued Enum member)"""
+    def __str__(self):
+        return 'StrSub.MEMBER'
+
+    def __repr__(self):
+        return '<StrSub>'
+
+
 def build(c):
     t = c[0]
     if t == 'n':
         return None
     if t == 's':
         return c[1]
+    if t == 'ssub':
+        return StrSub(c[1])
     if t == 'o':
         if c[1] in PY_OBJECTS and bool(PY_OBJECTS[c[1]]) == bool(c[2]):
             return PY_OBJECTS[c[1]]
